@@ -1,6 +1,6 @@
 #!/bin/bash
 # usage: seedverify.sh <seed dir (with patch.diff, demo.py)>   -> verifies: tests pass with patch; demo fails with, passes without
-d=$1; name=$(echo $d | sed "s#/tmp/seed2*_##; s#/#_#g")
+d=$1; name=$(echo $d | sed "s#/tmp/seed[0-9]*_##; s#/#_#g")
 wt=/tmp/vwt_$name
 git -C /repo worktree add -q --detach $wt HEAD || exit 2
 py=/venv/bin/python; grep -q "numpy" $d/demo.py && py=python3-vt
